@@ -5,7 +5,7 @@
 // that has been put into a chosen prior state, optionally after deleting chosen CAS blobs, under
 // a hang detector, and prints recursive listings.
 //
-//	dir  <algo> <tree> <dest> <faults>
+//	dir  <algo> <tree> <dest> <faults> [<hex package-relative path of the output, default gen/out>]
 //	file <algo> <hexcontent> <octal mode> <dest> <faults>
 //
 //	<tree>   comma separated pre-order tokens of the entries of the output directory ("-" = empty):
@@ -410,14 +410,18 @@ func setDest(path, pkgDir, dest string) {
 
 func doDir(f []string) string {
 	algo, tree, dest, faults := f[1], f[2], f[3], f[4]
+	rel := "gen/out" // optional 6th field: the output's package-relative path (names with glob metacharacters, spaces, ...)
+	if len(f) > 5 && f[5] != "" && f[5] != "-" {
+		rel = w.Unhex(f[5])
+	}
 	e := setup(algo)
 	defer os.RemoveAll(e.root)
 	pkgDir := filepath.Join(e.ws, "pkg")
-	path := filepath.Join(pkgDir, "gen", "out")
+	path := filepath.Join(pkgDir, filepath.FromSlash(rel))
 	putTree(path, tree)
 	before := listing(path)
 	target := model.Target{Label: label.TL("pkg", "t"), ChangeHash: "h"}
-	output := model.NewOutput("dir", "gen/out")
+	output := model.NewOutput("dir", rel)
 	var out *gen.Output
 	hw := handlers.NewDirectoryOutputHandler(newCas())
 	wcls, wdetail := guarded(func() error {
